@@ -338,7 +338,7 @@ def fam_singleton(ctx):
     f = Family("Expr.__new__ / Expr._instances with garbage collection")
     rng = ctx.rng
     reqs, code, inputs, nontriv = [], [], [], []
-    for _ in range(60 if ctx.quick else 1500):
+    for _ in range(40 if ctx.quick else 1500):
         script = []
         for _ in range(rng.randint(3, 14)):
             if rng.random() < 0.65:
@@ -462,16 +462,20 @@ def oracle(items, pq, cache, version):
     from concurrent.futures import ThreadPoolExecutor
 
     todo = [it for it in dict.fromkeys(items) if _okey(it, version) not in cache]
+    # per interpreter: at most one query of each cache-relevant tag — except sorts, where up to 3 with pairwise different
+    # (column, npartitions) keys may share one (far below the LRU capacity of 10)
+    cap = {"sort": 3}
     batches = []
     for it in todo:
         groups = set(_tag_groups(it[0]))
         for b in batches:
-            if len(b["items"]) < 8 and not (groups & b["groups"]):
+            if len(b["items"]) < 8 and all(b["groups"].get(g, 0) < cap.get(g, 1) for g in groups):
                 b["items"].append(it)
-                b["groups"] |= groups
+                for g in groups:
+                    b["groups"][g] = b["groups"].get(g, 0) + 1
                 break
         else:
-            batches.append({"items": [it], "groups": set(groups)})
+            batches.append({"items": [it], "groups": {g: 1 for g in groups}})
 
     def run(b):
         job = {"kind": "observe", "pq": pq, "items": [{"id": f"{q}|{v}", "qid": q, "variation": v} for q, v in b["items"]]}
@@ -546,7 +550,7 @@ def run_history(steps, pq, ocache=None):
                 if not raised:
                     mismatches.append({"step": idx, "q": qv[0], "v": qv[1], "field": "failure-injection", "session": "no exception", "fresh": "RuntimeError"})
                 # what the failed run left behind must not change a later observation
-                obs = sp.observe(sp.build(qv[0], pq, qv[1]), ("divisions", "result"), sort_rows=bool(sp.flags(qv[0]).get("sort_rows")))
+                obs = sp.observe(sp.build(qv[0], pq, qv[1]), ("divisions", "result"), sort_rows=sp.flags(qv[0]).get("sort_rows", False))
                 pending.append((idx, qv, obs, version))
             elif op == "observe":
                 coll = None
@@ -557,7 +561,7 @@ def run_history(steps, pq, ocache=None):
                 if coll is None:
                     coll = sp.build(qv[0], pq, qv[1])
                 what = tuple(st["what"])
-                obs = sp.observe(coll, what, sort_rows=bool(sp.flags(qv[0]).get("sort_rows")))
+                obs = sp.observe(coll, what, sort_rows=sp.flags(qv[0]).get("sort_rows", False))
                 if st.get("via") == "handle":
                     # the name of an already optimized handle is not the name of the logical query
                     obs.pop("name", None)
@@ -674,7 +678,7 @@ def support(ctx, broken):
     pq_root = tempfile.mkdtemp(prefix="dxverif-c15-")
     try:
         n_sessions = 2 if ctx.quick else 10
-        n_steps = 110 if ctx.quick else 260
+        n_steps = 80 if ctx.quick else 260
         seen_sigs = set()
         for si in range(n_sessions):
             pool_items = list(items)
@@ -696,7 +700,7 @@ def support(ctx, broken):
                 if key in seen_sigs:
                     continue
                 seen_sigs.add(key)
-                small = _shrink(steps, m, pq_root, budget=(5 if len(sup.failures) == 0 else 2) if ctx.quick else 25)
+                small = _shrink(steps, m, pq_root, budget=(4 if len(sup.failures) == 0 else 1) if ctx.quick else 25)
                 sup.failures.append(Failure(sig=sig, case={"steps": small, "expect": {"q": m["q"], "field": m["field"]}},
                                             detail=f"query {m['q']} (variation {m['v']}) observation {m['field']}: in session {m['session']} vs fresh interpreter {m['fresh']}; "
                                                    f"history shrunk to {len(small)} steps"))
